@@ -3,10 +3,13 @@
 Streams
   sort       helpers.sorted_definitions(set(defs)) on real classes.Name objects (synthetic inner
              names, shuffled, with __eq__-equal duplicates) vs Model.Determinism.inferResult
-  machine    random query bodies (nested try/finally blocks, exceptions anywhere) executed with the
-             real primitives (InferenceState.reset_recursion_limitations, detector push/pop,
-             _limit_value_infers, AbstractContext.predefine_names, dynamic_params._avoid_recursions)
-             on one state object vs Model.Determinism.session
+  machine    random query bodies (nested try/finally blocks, exceptions anywhere, dynamic parameter
+             lookups that re-enter themselves so that the recursion guard blocks, call-site searches)
+             executed with the real primitives (InferenceState.reset_recursion_limitations, detector
+             push/pop, _limit_value_infers, AbstractContext.predefine_names,
+             dynamic_params._avoid_recursions, the loop of dynamic_params._search_function_arguments)
+             on one state object vs Model.Determinism.session; dynamic_params_depth must be 0 after
+             every query
   order      direct oracle, in-process: the value set / name set that Script.infer / goto turn into
              Name objects is handed over in every (sampled) iteration order; the ordered result
              lists must be equal (goto: as sets)
@@ -15,8 +18,17 @@ Streams
   session    direct oracle: permutations / repetitions of up to 8 queries on one Script (including
              out-of-range positions that raise ValueError); every answer must equal the answer of a
              fresh Script; after every query the per-query state is checked on the real object
+  dynsession the same oracle on programs whose answers come from the dynamic parameter search
+             (functions with 11..16 call sites with distinct argument classes, self- / mutually
+             recursive functions, helper calls; gen/c16_dynparams.py, corpus/C16): every ordered
+             pair of parameter queries, random longer sessions
   fault      an exception is injected at the k-th inference step of a query; afterwards all
              switches must have their defaults and the recursion stacks must be empty
+
+Controlled environment: all in-process streams and every subprocess use a parso pickle cache
+directory private to this run (PrivateCache) - the shared ~/.cache/jedi is written non-atomically and
+a concurrent reader gets EOFError out of jedi (reproduced; that race is parso's, not C16's).
+Answers that are internal exceptions on BOTH sides are counted, not compared (C01's statement).
 """
 import itertools
 import json
@@ -45,6 +57,12 @@ MANIFEST = dict(
          'the same set (goto_set_invariant); after any sequence of queries with any outcomes the switches '
          'have their defaults and every query starts with fresh recursion bookkeeping '
          '(query_boundary_inv_partial; witness: inferred_element_counts is not reset, reproduced on jedi); '
+         'this includes dynamic_params_depth = 0 and an empty statement stack for any outcome of '
+         'dynamic_params._avoid_recursions (allowed, blocked by the recursion guard, exception) because the '
+         'translator finds `+= 1` inside `if allowed:` right before the try whose finally has `-= 1` '
+         '(dyn_bracket_transcribed; dyn_depth_zero_at_every_boundary; top_level_search_sees_all_sites; '
+         'kernel-checked witness for the increment moved before the with block: 12 call sites fresh, 10 after a '
+         'self-recursive lookup); '
          'on acyclic dependency graphs the memoised evaluator answers independently of earlier queries '
          '(memo_order_independent_acyclic; 2-cycle witness). Tie: translator + correspondence on real Name '
          'objects and real primitives + direct oracles (hash seeds, iteration orders, query permutations).',
@@ -869,11 +887,19 @@ def stream_dynsession(ctx, cap):
     calls; queries on the parameters, asked in every order of every pair and in random longer
     sessions with repetitions"""
     rng = ctx.subrng('dynsession')
+    probed = set()
+    # corpus first: minimised past alarms / the shapes of known defects
+    for path in sorted(Path(common.CORPUS_DIR, 'C16').glob('*.json')):
+        with open(path, encoding='utf-8') as f:
+            c = json.load(f)
+        sessions = [[tuple(q) for q in sess] for sess in c['sessions']]
+        probes = sorted({q for sess in sessions for q in sess})
+        run_sessions(ctx, 'dynsession', c['label'], c['source'], sessions, Fresh(c['source']), probes, cap, probed,
+                     extra_case={'has_nested_helper_call': 'nested' in c['label']})
     progs = [(label, src, queries, meta) for label, src, queries, meta in DP.fixed_programs()]
     for i in range(ctx.size(8, 120)):
         src, queries, meta = DP.gen_program(rng)
         progs.append(('dyn-%d' % i, src, queries, meta))
-    probed = set()
     for label, src, queries, meta in progs:
         params = [('infer', l, c) for (kind, fn, l, c) in queries]
         pool = list(params)
@@ -1042,6 +1068,9 @@ def run(ctx):
         'session compares every answer on a used Script with a fresh Script',
         'well-formedness of names (1-based lines, non-empty path strings) is assumed by key_injective; stream '
         'sort generates only such names, the e2e streams would show a violation as an order difference',
+        'memoised results of the dynamic parameter search are not modelled (two known findings: recursion default '
+        'memoised, search truncated at nested depth); the model covers the depth counter and the recursion guard, '
+        'stream dynsession compares real answers',
         'flow_analysis_enabled / is_analysis blocks are inline try/finally statements (no callable primitive): '
         'checked by fault injection on real queries (stream fault), not by the machine correspondence',
     ]
@@ -1051,11 +1080,19 @@ def replay(ctx, payload):
     import jedi
     inp = payload['input']
     if 'session' in inp:
-        s = jedi.Script(inp['source'])
-        for i, qq in enumerate(inp['session']):
-            a = run_query(s, *qq)
-            f = run_query(jedi.Script(inp['source']), *qq)
-            print(i, qq, 'used:', a, 'fresh:', f, '' if a == f else '   <-- differs')
+        with SearchHook():
+            s = jedi.Script(inp['source'])
+            ndiff = 0
+            for i, qq in enumerate(inp['session']):
+                a = ask(s, tuple(qq))
+                f = ask(jedi.Script(inp['source']), tuple(qq))
+                n = lambda r: '%d results' % len(r[1]) if r[0] == 'ok' else r[0]
+                print(i, qq, 'used Script:', n(a), short(a, 300), '| fresh Script:', n(f), short(f, 300),
+                      '' if a == f else '   <-- DIFFERS (%s)' % classify(f, a))
+                print('   state after the query:', state_defaults(s) or 'defaults',
+                      '| dynamic searches so far at depths', SearchHook.depths(s), '| blocked lookups', SearchHook.blocked(s))
+                ndiff += a != f
+            print('%d of %d answers differ from the answer of a fresh Script' % (ndiff, len(inp['session'])))
     elif 'query' in inp:
         for name, pick in (('sorted', lambda r: sorted(r, key=stable_key)),
                            ('reversed', lambda r: sorted(r, key=stable_key)[::-1])):
